@@ -43,17 +43,18 @@ Definition exact_int_of (r : res value) : option Z :=
 Definition vmin (a b : value) : value := match vcmp b a with Lt => b | _ => a end.
 Definition vmax (a b : value) : value := match vcmp b a with Lt => a | _ => b end.
 Definition minmax_emit (is_min : bool) (m : f64) (mi : option Z) : value :=
-  match m, is_min with
-  | S754_infinity true, true => VNone        (* as before the fix: an infinite extremum is not reported *)
-  | S754_infinity false, false => VNone
-  | _, _ =>
-      let of_floats := if f_is_finite m then Some (from_float m) else None in
-      match mi, of_floats with
-      | Some i, Some f => if is_min then vmin (VInt i) f else vmax (VInt i) f
-      | Some i, None => VInt i
-      | None, Some f => f
-      | None, None => VNone
-      end
+  (* the initial value (+inf for min, -inf for max) means that no float was seen; an infinite extremum that WAS seen is reported *)
+  let of_floats :=
+    match m, is_min with
+    | S754_infinity false, true => None
+    | S754_infinity true, false => None
+    | _, _ => Some (from_float m)
+    end in
+  match mi, of_floats with
+  | Some i, Some f => if is_min then vmin (VInt i) f else vmax (VInt i) f
+  | Some i, None => VInt i
+  | None, Some f => f
+  | None, None => VNone
   end.
 
 (** [AggregateFunction::process]; an evaluation error leaves the state as is *)
@@ -85,7 +86,7 @@ Definition acc_step (a : acc) (d : data) : acc :=
       | Ok v => if existsb (veqb v) seen then a else ADistinct (v :: seen) e
       | _ => a
       end
-  | APct vals p e => match eval_f64 e d with Ok v => APct (v :: vals) p e | _ => a end
+  | APct vals p e => match eval_f64 e d with Ok v => if f_is_nan v then a else APct (v :: vals) p e | _ => a end   (* a NaN has no rank *)
   end.
 
 (** does processing this row hit the unmodelled fragment? *)
@@ -105,7 +106,7 @@ Definition acc_emit (a : acc) : res value :=
   | ASum t _ => Ok (from_float t)
   | AMin m mi _ => Ok (minmax_emit true m mi)
   | AMax m mi _ => Ok (minmax_emit false m mi)
-  | AAvg t n _ => Ok (from_float (fdiv t (f_of_Z n)))
+  | AAvg t n _ => Ok (if n =? 0 then VNone else from_float (fdiv t (f_of_Z n)))     (* no numeric value: None, not 0/0 *)
   | ADistinct seen _ => Ok (VInt (Z.of_nat (length seen)))
   | APct [] _ _ => Ok VNone
   | APct vals p _ =>
